@@ -226,7 +226,7 @@ func runC07WithFake(c C07Case, preset *FakeServer) *Failure {
 		defer os.RemoveAll(dir)
 		// the child plays the script on the 1st tools/call; calls are numbered so "extra" calls come later
 		plan := map[string][]FakeAction{"request:tools/call": {{Kind: "raw", Raw: c07Lines(c.Script)}}}
-		cfg := mcp.StdioTransportConfig{ServerParams: ChildCommand(ChildSpec{Role: "fake", Log: filepath.Join(dir, "log"), Plan: plan}), Timeout: 4 * time.Second}
+		cfg := mcp.StdioTransportConfig{ServerParams: ChildCommand(ChildSpec{Role: "fake", Log: filepath.Join(dir, "log"), Plan: plan}), Timeout: LongWait()}
 		sc, err := mcp.NewStdioClient(cfg, mcp.Implementation{Name: "c", Version: "1"}, mcp.WithStdioLogger(nopLogger{}))
 		if err != nil {
 			return Failf("C07/new-client", "%v", err)
@@ -316,7 +316,7 @@ func runC07WithFake(c C07Case, preset *FakeServer) *Failure {
 		wg.Add(1)
 		go func(i int) {
 			defer wg.Done()
-			ctx, cancel := context.WithTimeout(context.Background(), 4*time.Second)
+			ctx, cancel := context.WithTimeout(context.Background(), LongWait())
 			defer cancel()
 			t, err := callEcho(ctx, cl)
 			extra[i] = res{t, err}
@@ -325,7 +325,7 @@ func runC07WithFake(c C07Case, preset *FakeServer) *Failure {
 	var a res
 	select {
 	case a = <-ares:
-	case <-time.After(8 * time.Second):
+	case <-time.After(LongWait() + 4*time.Second):
 		return TimingFailf("C07/call-does-not-return/"+c.Client, "%s: the affected call did not return 5 s after its context deadline", where)
 	}
 	wg.Wait()
@@ -352,7 +352,7 @@ func runC07WithFake(c C07Case, preset *FakeServer) *Failure {
 		return TimingFailf("C07/handler-registration-hangs/"+c.Client, "%s: RegisterNotificationHandler / UnregisterNotificationHandler did not return after the junk", where)
 	}
 	// a later well-formed call on the same client completes
-	lctx, lcancel := context.WithTimeout(context.Background(), 4*time.Second)
+	lctx, lcancel := context.WithTimeout(context.Background(), LongWait())
 	lt, lerr := callEcho(lctx, cl)
 	lcancel()
 	if lerr != nil || lt != c07ValidText {
